@@ -127,3 +127,28 @@ def used_before_assigned(fnode_body, fld):
         return st
     run(fnode_body, "unset", step)
     return hit[0] if hit else None
+
+
+def local_read_before_assigned(body, name):
+    """can some path through `body` (one iteration of a loop, say) read the local `name` before it has assigned it?  Such a name carries
+    its value from the previous iteration; one that is always assigned first is a temporary"""
+    hit = []
+
+    def step(node, st):
+        if st == "set":
+            return st
+        loads = [n for n in ast.walk(node) if isinstance(n, ast.Name) and n.id == name and isinstance(n.ctx, ast.Load)]
+        stores = [n for n in ast.walk(node) if isinstance(n, ast.Name) and n.id == name and isinstance(n.ctx, ast.Store)]
+        if loads or (isinstance(node, ast.AugAssign) and stores):
+            hit.append(node)
+            return st
+        if stores:
+            return "set"
+        return st
+    try:
+        # the statements are a loop body: `continue` / `break` need their loop
+        wrapper = ast.While(test=ast.Constant(value=True), body=list(body), orelse=[])
+        run([wrapper], "unset", step)
+    except OverflowError:
+        return True
+    return bool(hit)
